@@ -14,6 +14,8 @@
 #include <unistd.h>
 
 int hx_last_api;
+int hx_time_scale = 1;
+static int sc(int t) { return t > 0 ? t * hx_time_scale : t; }
 
 void hx_desc(const char *fmt, ...)
 {
@@ -69,6 +71,7 @@ void hx_begin(void)
   vk_exec_init();
   vk_environ = fixed_env;
   vk_faults_armed = 0;
+  hx_time_scale = vk_cfg.passthru ? 30 : 1; /* free runs: 1 nominal ms = 30 real ms, far above scheduling jitter, far below the helper's step gap */
 }
 
 const char *const *hx_helper_argv(void)
@@ -164,7 +167,7 @@ int hx_start(reproc_t *p, const char *const *argv, reproc_options o)
 int hx_wait(reproc_t *p, int timeout)
 {
   hx_last_api = vk_api_begin("wait(%d)", timeout);
-  int r = reproc_wait(p, timeout);
+  int r = reproc_wait(p, sc(timeout));
   vk_api_end(r);
   vk_obs("wait(%d)=%s", timeout, hx_errname(r));
   return r;
@@ -192,7 +195,11 @@ int hx_stop(reproc_t *p, reproc_stop_actions a)
 {
   char b[100];
   hx_last_api = vk_api_begin("stop(%s)", hx_stop_str(a, b, sizeof b));
-  int r = reproc_stop(p, a);
+  reproc_stop_actions as = a;
+  as.first.timeout = sc(a.first.timeout);
+  as.second.timeout = sc(a.second.timeout);
+  as.third.timeout = sc(a.third.timeout);
+  int r = reproc_stop(p, as);
   vk_api_end(r);
   vk_obs("stop(%s)=%s", b, hx_errname(r));
   return r;
@@ -237,7 +244,7 @@ int hx_close(reproc_t *p, REPROC_STREAM s)
 int hx_poll(reproc_event_source *src, size_t n, int timeout)
 {
   hx_last_api = vk_api_begin("poll(n=%zu,timeout=%d)", n, timeout);
-  int r = reproc_poll(src, n, timeout);
+  int r = reproc_poll(src, n, sc(timeout));
   vk_api_end(r);
   char ev[64] = "";
   size_t o = 0;
